@@ -375,10 +375,15 @@ class APIClient:
     async def disconnect(self, force: bool = False) -> None:
         if self._connection is None:
             return
+        connection = self._connection
         if force:
-            self._connection.force_disconnect()
+            connection.force_disconnect()
         else:
-            await self._connection.disconnect()
+            await connection.disconnect()
+        if self._connection is connection:
+            # The stop hook only runs for connections that were
+            # fully established, make sure we never keep a closed one
+            self._connection = None
 
     def _get_connection(self) -> APIConnection:
         connection = self._connection
